@@ -58,6 +58,12 @@ def scenarios(tier):
             if "Q" in extra and layout == "single":
                 continue
             S.append(dict(layout=layout, demux=None, keys=["m", "max_n"], final=None, redirect=True, report="full", extra=extra))
+    # the same figures with two cores (statistics merged across workers), default schedule of the virtual scheduler
+    for layout in ("single", "paired"):
+        for extra in (dict(poly_a=True), dict(q="10,10", nextseq=12), dict(times=2), None):
+            for demux in (None, "name"):
+                S.append(dict(layout=layout, demux=demux, keys=FILTER_KEYS, final="discard_untrimmed", redirect=True, report="full",
+                              extra=extra, cores=2))
     return S
 
 
@@ -107,7 +113,8 @@ def run_shard(d):
         sc = S[i]
         o, outs = opts_of(sc)
         paired = sc["layout"] != "single"
-        out = routing.run_scenario(o, outs, sc["layout"], r1, r2 if paired else None, wd, report=sc["report"], want_json=True)
+        out = routing.run_scenario(o, outs, sc["layout"], r1, r2 if paired else None, wd, report=sc["report"], want_json=True,
+                                   cores=sc.get("cores", 1))
         res["runs"] += 1
         res["evals"] += len(r1)
         V = []
@@ -280,7 +287,8 @@ def replay(path):
     r1, r2 = _corpora()
     paired = sc["layout"] != "single"
     wd = clih.fresh_dir("c04r")
-    out = routing.run_scenario(o, outs, sc["layout"], r1, r2 if paired else None, wd, report=sc["report"], want_json=True)
+    out = routing.run_scenario(o, outs, sc["layout"], r1, r2 if paired else None, wd, report=sc["report"], want_json=True,
+                               cores=sc.get("cores", 1))
     V = [x for x in out["violations"] if x[0] in ("cli", "dest", "files", "demux")]
     if not V:
         V = account(sc, o, outs, out, r1, r2 if paired else None)
